@@ -198,6 +198,19 @@ func c16Invalidations() []invDev {
 	post("ext-duplicate-key", "ext", "", "", func(r *reqSpec, req *signature.SignRequest, rs *envenc.RemoteSigner) {
 		req.ExtendedSignedAttributes = []signature.Attribute{attr("io.example.a", true, 1), attr("io.example.a", false, 2)}
 	})
+	// COSE: integer labels above the int64 range can be written but not read back by the library: not a request to sign
+	for _, bk := range []struct {
+		n string
+		k any
+	}{{"uint64(2^63)", uint64(1) << 63}, {"uint64(2^64-1)", ^uint64(0)}, {"uint(2^63)", uint(1) << 63}} {
+		bk := bk
+		for _, crit := range []bool{false, true} {
+			crit := crit
+			post(fmt.Sprintf("cose-ext-key-above-int64=%s(critical=%v)", bk.n, crit), "ext", "cose", "", func(r *reqSpec, req *signature.SignRequest, rs *envenc.RemoteSigner) {
+				req.ExtendedSignedAttributes = []signature.Attribute{attr(bk.k, crit, "out of range")}
+			})
+		}
+	}
 	// a repeated key whose first (or second) occurrence carries a nil value
 	post("ext-duplicate-key(first value nil)", "ext", "", "", func(r *reqSpec, req *signature.SignRequest, rs *envenc.RemoteSigner) {
 		req.ExtendedSignedAttributes = []signature.Attribute{attr("io.example.a", true, nil), attr("io.example.a", false, "b")}
